@@ -104,4 +104,209 @@ theorem C08_paid_batches_are_released (h : HubSt) (u : Addr) :
     does not undelegate, 31 s after does. -/
 example : ¬ (1000030 - 1000000 > 30) ∧ (1000031 - 1000000 > 30) := by decide
 
+/-! ### Forward only, over every history
+
+  `HistExt h h'`: `h'` continues `h`'s batch history — the open batch id never goes back, an entry
+  that exists keeps its undelegation time, amounts and applied rates for ever, and a released entry
+  never changes again (in particular it is never un-released and its withdraw rates are final). -/
+
+structure HistExt (h h' : HubSt) : Prop where
+  batch : h.batchId ≤ h'.batchId
+  keep : ∀ i x, h.hist i = some x → ∃ x', h'.hist i = some x' ∧ x'.time = x.time ∧ x'.bAmt = x.bAmt ∧
+    x'.sAmt = x.sAmt ∧ x'.bApplied = x.bApplied ∧ x'.sApplied = x.sApplied ∧ (x.released = true → x' = x)
+
+theorem HistExt.refl (h : HubSt) : HistExt h h :=
+  ⟨Nat.le_refl _, fun _ x hx => ⟨x, hx, rfl, rfl, rfl, rfl, rfl, fun _ => rfl⟩⟩
+
+theorem HistExt.trans {a b c : HubSt} (x : HistExt a b) (y : HistExt b c) : HistExt a c := by
+  refine ⟨Nat.le_trans x.batch y.batch, fun i e he => ?_⟩
+  obtain ⟨e1, h1, t1, b1, s1, ba1, sa1, r1⟩ := x.keep i e he
+  obtain ⟨e2, h2, t2, b2, s2, ba2, sa2, r2⟩ := y.keep i e1 h1
+  refine ⟨e2, h2, by rw [t2, t1], by rw [b2, b1], by rw [s2, s1], by rw [ba2, ba1], by rw [sa2, sa1], fun hr => ?_⟩
+  have := r1 hr; subst this
+  exact r2 hr
+
+theorem HistExt.of_keeps {h h' : HubSt} (k : KeepsClaims h h') : HistExt h h' := by
+  refine ⟨by rw [k.same.batchId]; exact Nat.le_refl _, fun i x hx => ?_⟩
+  rw [← k.same.hist] at hx
+  exact ⟨x, hx, rfl, rfl, rfl, rfl, rfl, fun _ => rfl⟩
+
+/-- closing the open batch only adds the entry of the open id (which had none) -/
+theorem HistExt.of_undelegation (h h' : HubSt) (e : HubEnv) (ms : List Msg) (inv : ClaimInv h)
+    (hx : h.processUndelegations e = .ok (h', ms)) : HistExt h h' := by
+  have sp := processUndelegations_spec h h' e ms hx
+  obtain ⟨_, _, _, _, _, _, _, _, _, bid, _, hh, _⟩ := sp
+  refine ⟨by rw [bid]; omega, fun i x hxi => ?_⟩
+  have hlt := inv.histBound i (by rw [hxi]; simp)
+  have hne : i ≠ h.batchId := by omega
+  rw [hh, upd_other _ _ _ _ hne]
+  exact ⟨x, hxi, rfl, rfl, rfl, rfl, rfl, fun _ => rfl⟩
+
+/-- **Every hub message** continues the batch history. -/
+theorem C08_hub_step_forward (h h' : HubSt) (e : HubEnv) (sender : Addr) (funds : List (Denom × Nat))
+    (m : HubMsg) (ms : List Msg) (inv : ClaimInv h) (hl : h.legacy = [])
+    (hx : hubExec h e sender funds m = .ok (h', ms)) : HistExt h h' := by
+  cases m with
+  | migrateWaitList limit =>
+    simp only [hubExec] at hx
+    split at hx
+    · injection hx with hx; injection hx with h1 _; subst h1
+      have : h.migrate limit = h := by simp [migrate, hl]
+      rw [this]; exact HistExt.refl _
+    · cases hx
+  | updateParams a b c d p r =>
+    simp only [hubExec] at hx
+    exc_norm at hx
+    split at hx
+    · cases hx
+    · rename_i h1 hp
+      injection hx with hx; injection hx with e1 _; subst e1
+      exact HistExt.of_keeps (updateParams_keeps _ _ _ _ _ _ _ _ _ hp)
+  | receive user amt hook =>
+    simp only [hubExec] at hx
+    split at hx
+    · cases hx
+    · exc_norm at hx
+      split at hx
+      · cases hx
+      · split at hx
+        · cases hx
+        · cases hook with
+          | other => simp only [] at hx; cases hx
+          | convert =>
+            simp only [] at hx
+            split at hx
+            · exact HistExt.of_keeps (convertBS_keeps _ _ _ _ _ _ hx)
+            · split at hx
+              · exact HistExt.of_keeps (convertSB_keeps _ _ _ _ _ _ hx)
+              · cases hx
+          | unbond =>
+            simp only [] at hx
+            split at hx
+            · obtain ⟨st, supply, wf, tok, hst, _, _, _, _, _, hcase⟩ := unbondB_spec _ _ _ _ _ _ hx
+              have k := actualState_keeps h st e hst
+              have inv1 : ClaimInv st := ClaimInv.of_same k.same inv
+              have c := C07_unbond_bsei_credits_sender_only st inv1 user supply amt wf
+              have e1 : HistExt h (st.afterUnbondB user supply amt wf) :=
+                (HistExt.of_keeps k).trans ⟨Nat.le_refl _, fun i x hx => ⟨x, hx, rfl, rfl, rfl, rfl, rfl, fun _ => rfl⟩⟩
+              rcases hcase with ⟨_, um, hp, _⟩ | ⟨_, hh, _⟩
+              · exact e1.trans (HistExt.of_undelegation _ _ _ _ c.1 hp)
+              · subst hh; exact e1
+            · split at hx
+              · obtain ⟨st, tok, hst, _, _, hcase⟩ := unbondS_spec _ _ _ _ _ _ hx
+                have k := actualState_keeps h st e hst
+                have inv1 : ClaimInv st := ClaimInv.of_same k.same inv
+                have c := C07_unbond_stsei_credits_sender_only st inv1 user amt
+                have e1 : HistExt h (st.afterUnbondS user amt) :=
+                  (HistExt.of_keeps k).trans ⟨Nat.le_refl _, fun i x hx => ⟨x, hx, rfl, rfl, rfl, rfl, rfl, fun _ => rfl⟩⟩
+                rcases hcase with ⟨_, um, hp, _⟩ | ⟨_, hh, _⟩
+                · exact e1.trans (HistExt.of_undelegation _ _ _ _ c.1 hp)
+                · subst hh; exact e1
+              · cases hx
+  | bond => simp only [hubExec] at hx; split at hx; · cases hx
+            · exact HistExt.of_keeps (bondB_keeps _ _ _ _ _ _ hx)
+  | bondForStSei => simp only [hubExec] at hx; split at hx; · cases hx
+                    · exact HistExt.of_keeps (bondS_keeps _ _ _ _ _ _ hx)
+  | bondRewards => simp only [hubExec] at hx; split at hx; · cases hx
+                   · exact HistExt.of_keeps (bondR_keeps _ _ _ _ _ _ hx)
+  | updateGlobalIndex => simp only [hubExec] at hx; split at hx; · cases hx
+                         · exact HistExt.of_keeps (updateGlobal_keeps _ _ _ _ _ hx)
+  | withdrawUnbonded =>
+    simp only [hubExec] at hx
+    split at hx
+    · cases hx
+    · have tl := C08_release_respects_time_lock h h' e sender ms hx
+      obtain ⟨_, h1, hp, _, _, hh, _⟩ := withdraw_spec h h' e sender ms hx
+      have sp := processWithdrawRate_spec h h1 _ _ hp
+      have fs := delWait_fold_spec (h1.finished sender).2 sender h1
+      refine ⟨?_, fun i x hxi => ?_⟩
+      · subst hh
+        show h.batchId ≤ (List.foldl (fun hh i => hh.delWait sender i) h1 (h1.finished sender).2).batchId
+        rw [fs.2.1, sp.2.2.2.2.1]; exact Nat.le_refl _
+      · obtain ⟨x', h1x, t, b, s, ba, sa, keep, _⟩ := tl.2 i x hxi
+        exact ⟨x', h1x, t, b, s, ba, sa, keep⟩
+  | checkSlashing =>
+    simp only [hubExec] at hx
+    split at hx
+    · cases hx
+    · exc_norm at hx
+      split at hx
+      · cases hx
+      · rename_i st hst
+        injection hx with hx; injection hx with e1 _; subst e1
+        exact HistExt.of_keeps (actualState_keeps _ _ _ hst)
+  | updateConfig a b c d f g u =>
+    simp only [hubExec] at hx; split at hx; · cases hx
+    · exact HistExt.of_keeps (updateConfig_keeps _ _ _ _ _ _ _ _ _ _ _ _ hx)
+  | setOwner a =>
+    simp only [hubExec] at hx; exc_norm at hx; exc_split at hx
+    exact ⟨Nat.le_refl _, fun i x hx => ⟨x, hx, rfl, rfl, rfl, rfl, rfl, fun _ => rfl⟩⟩
+  | acceptOwnership =>
+    simp only [hubExec] at hx; exc_norm at hx; exc_split at hx
+    exact ⟨Nat.le_refl _, fun i x hx => ⟨x, hx, rfl, rfl, rfl, rfl, rfl, fun _ => rfl⟩⟩
+  | swapHook =>
+    simp only [hubExec] at hx; exc_norm at hx; exc_split at hx; exact HistExt.refl _
+  | claimAirdrop =>
+    simp only [hubExec] at hx; exc_norm at hx; exc_split at hx; exact HistExt.refl _
+  | redelegateProxy src plan =>
+    simp only [hubExec] at hx; exc_norm at hx; exc_split at hx; exact HistExt.refl _
+
+/-- **Every history.** Whatever happens between two points of any history of the composed system
+    (no pre-migration entries injected), the later hub state continues the earlier one's batch
+    history: batch ids never go back, no entry's time / amounts / applied rates are ever rewritten,
+    nothing released is ever touched again. -/
+theorem C08_forward_only (s : Sys) (l1 l2 : List Step) (inv : ClaimInv s.hub) (hl : s.hub.legacy = [])
+    (hnl : ∀ u b a, Step.env (.seedLegacy u b a) ∉ l1 ++ l2) :
+    HistExt (s.steps l1).hub (s.steps (l1 ++ l2)).hub := by
+  have split : s.steps (l1 ++ l2) = (s.steps l1).steps l2 := by
+    unfold Sys.steps; rw [List.foldl_append]
+  rw [split]
+  have hn1 : ∀ u b a, Step.env (.seedLegacy u b a) ∉ l1 :=
+    fun u b a hm => hnl u b a (List.mem_append_left _ hm)
+  have hn2 : ∀ u b a, Step.env (.seedLegacy u b a) ∉ l2 :=
+    fun u b a hm => hnl u b a (List.mem_append_right _ hm)
+  have mid := C07_reachable s l1 inv hl hn1
+  generalize s.steps l1 = x at mid ⊢
+  -- induction over the second part, carrying the claim invariant along
+  have key : ∀ (l : List Step) (y : Sys), ClaimInv y.hub → y.hub.legacy = [] →
+      (∀ u b a, Step.env (.seedLegacy u b a) ∉ l) → HistExt x.hub y.hub → HistExt x.hub (y.steps l).hub := by
+    intro l
+    induction l with
+    | nil => intro y _ _ _ he; exact he
+    | cons st rest ih =>
+      intro y iy ly hn he
+      have hrest : ∀ u b a, Step.env (.seedLegacy u b a) ∉ rest :=
+        fun u b a hm => hn u b a (List.mem_cons_of_mem _ hm)
+      have hone : ∀ u b a, Step.env (.seedLegacy u b a) ∉ [st] := by
+        intro u b a hm
+        simp only [List.mem_cons, List.mem_nil_iff, or_false] at hm
+        exact hn u b a (hm ▸ List.mem_cons_self ..)
+      have nxt := C07_reachable y [st] iy ly hone
+      show HistExt x.hub ((y.step st).steps rest).hub
+      refine ih (y.step st) nxt.1 nxt.2 hrest (he.trans ?_)
+      cases st with
+      | env e =>
+        have hne : ∀ u b a, e ≠ .seedLegacy u b a := by
+          intro u b a hee; subst hee; exact hn u b a (List.mem_cons_self ..)
+        show HistExt y.hub (y.env e).hub
+        rw [(env_same y e hne).hub]; exact HistExt.refl _
+      | tx m =>
+        show HistExt y.hub (y.exec m).1.hub
+        have := exec_inv (fun z => ClaimInv z.hub ∧ z.hub.legacy = [] ∧ HistExt y.hub z.hub)
+          (by
+            intro z m' z' ms hp hx
+            cases handle_touch z z' m' ms hx with
+            | none h _ _ => rw [h.hub]; exact hp
+            | hub s1 sender funds hm _ _ _ hx' b t r d g =>
+              have st := C07_hub_step _ _ _ _ _ _ _ hp.1 hp.2.1 hx'
+              exact ⟨st.1, st.2, hp.2.2.trans (C08_hub_step_forward _ _ _ _ _ _ _ hp.1 hp.2.1 hx')⟩
+            | bsei s1 sender funds tm _ _ hx' h t r d g => rw [h]; exact hp
+            | stsei blk sender funds tm _ hx' h b r d g => rw [h]; exact hp
+            | reward s1 sender funds rm _ _ hx' h b t d g => rw [h]; exact hp
+            | disp env sender funds dm _ hx' h b t r g => rw [h]; exact hp
+            | reg s1 sender funds rm _ h1 hx' h b t r d => rw [h]; exact hp)
+          y m ⟨iy, ly, HistExt.refl _⟩
+        exact this.2.2
+  exact key l2 x mid.1 mid.2 hn2 (HistExt.refl _)
+
 end Krp
